@@ -169,9 +169,12 @@ pub fn handle(op: &str, cmd: &Value) -> Value {
             let bytes: Vec<u8> = cmd["bytes"].as_array().unwrap().iter().map(|b| b.as_u64().unwrap() as u8).collect();
             fn go<T: Decode + Encode>(bytes: &[u8]) -> Value {
                 let mut inp = bytes;
-                match T::decode(&mut inp) {
-                    Ok(v) => { let used = bytes.len() - inp.len(); json!({"decoded": true, "consumed": used, "canonical": v.encode() == bytes[..used]}) }
-                    Err(_) => json!({"decoded": false}),
+                crate::MAX_REQ.store(0, std::sync::atomic::Ordering::Relaxed);
+                let r = T::decode(&mut inp);
+                let max_alloc = crate::MAX_REQ.load(std::sync::atomic::Ordering::Relaxed);
+                match r {
+                    Ok(v) => { let used = bytes.len() - inp.len(); json!({"decoded": true, "consumed": used, "canonical": v.encode() == bytes[..used], "max_alloc": max_alloc}) }
+                    Err(_) => json!({"decoded": false, "max_alloc": max_alloc}),
                 }
             }
             use scale_info::{form::PortableForm as P, *};
